@@ -43,30 +43,43 @@ Proof. vm_compute. reflexivity. Qed.
     process-wide state of its own — nothing but the C runtime's startup objects ("static-free") — or every object
     it holds is on the reviewed allow-list with reviewed writers; and every static of the table belongs to a
     listed shared object. *)
-Definition lib_statics (l : string) : list static := filter (fun s => String.eqb (s_lib s) l) table.
-Definition lib_static_free (l : string) : bool :=
-  forallb (fun s => match class_of allow_list s with Some Runtime => true | _ => false end) (lib_statics l).
-Definition lib_classified (l : string) : bool := forallb (check_static allow_list) (lib_statics l).
+Section PerLibrary.
+  Variable al : list allow.
+  Variable tb : list static.
+  Definition lib_statics (l : string) : list static := filter (fun s => String.eqb (s_lib s) l) tb.
+  Definition lib_static_free (l : string) : bool :=
+    forallb (fun s => match class_of al s with Some Runtime => true | _ => false end) (lib_statics l).
+  Definition lib_classified (l : string) : bool := forallb (check_static al) (lib_statics l).
+
+  Lemma per_library_sound : forall ls, forallb (fun l => lib_static_free l || lib_classified l) ls = true ->
+    forall l, In l ls ->
+    (forall s, In s tb -> s_lib s = l -> class_of al s = Some Runtime) \/
+    (forall s, In s tb -> s_lib s = l ->
+       exists a, lookup al s = Some a /\ incl (s_writers s) (a_writers a) /\ incl (s_addr s) (a_addr a)).
+  Proof.
+    intros ls H l Hl.
+    rewrite forallb_forall in H. specialize (H l Hl). apply orb_true_iff in H. destruct H as [H|H].
+    - left. intros s Hs El. unfold lib_static_free in H. rewrite forallb_forall in H.
+      assert (Hin : In s (lib_statics l)) by (apply filter_In; split; [exact Hs | subst; apply String.eqb_refl]).
+      specialize (H s Hin). destruct (class_of al s) as [[]|]; try discriminate. reflexivity.
+    - right. intros s Hs El. unfold lib_classified in H.
+      assert (Hin : In s (lib_statics l)) by (apply filter_In; split; [exact Hs | subst; apply String.eqb_refl]).
+      destruct (check_sound al (lib_statics l) H s Hin) as [a [H1 [H2 [H3 _]]]]. exists a. auto.
+  Qed.
+End PerLibrary.
 
 Lemma every_library_static_free_or_classified :
-  forallb (fun l => lib_static_free l || lib_classified l) libs = true /\
-  forallb (fun s => mem_str (s_lib s) libs) table = true.
-Proof. split; vm_compute; reflexivity. Qed.
+  forallb (fun l => lib_static_free allow_list table l || lib_classified allow_list table l) libs = true.
+Proof. vm_compute. reflexivity. Qed.
+
+Lemma every_static_in_a_listed_library : forallb (fun s => mem_str (s_lib s) libs) table = true.
+Proof. vm_compute. reflexivity. Qed.
 
 Lemma library_static_free_or_classified : forall l, In l libs ->
   (forall s, In s table -> s_lib s = l -> class_of allow_list s = Some Runtime) \/
   (forall s, In s table -> s_lib s = l ->
      exists a, lookup allow_list s = Some a /\ incl (s_writers s) (a_writers a) /\ incl (s_addr s) (a_addr a)).
-Proof.
-  intros l Hl. destruct every_library_static_free_or_classified as [H _].
-  rewrite forallb_forall in H. specialize (H l Hl). apply orb_true_iff in H. destruct H as [H|H].
-  - left. intros s Hs El. unfold lib_static_free in H. rewrite forallb_forall in H.
-    specialize (H s). assert (Hin : In s (lib_statics l)) by (apply filter_In; split; [exact Hs | subst; apply String.eqb_refl]).
-    specialize (H Hin). destruct (class_of allow_list s) as [[]|]; try discriminate. reflexivity.
-  - right. intros s Hs El. unfold lib_classified in H.
-    assert (Hin : In s (lib_statics l)) by (apply filter_In; split; [exact Hs | subst; apply String.eqb_refl]).
-    destruct (check_sound allow_list (lib_statics l) H s Hin) as [a [H1 [H2 [H3 _]]]]. exists a. auto.
-Qed.
+Proof. exact (per_library_sound allow_list table libs every_library_static_free_or_classified). Qed.
 
 (** classification of static number x of this build *)
 Definition cls_build (x : sid) : class :=
